@@ -82,8 +82,14 @@ def native_compare(model='single_fc_bias.tflite', recipe='default_af32w8float_re
     try:
         outs = []
         for b in (small, large):
-            itp = tiu.create_tfl_interpreter(b); det = itp.get_signature_runner().get_input_details()
-            outs.append(tiu.invoke_interpreter_signature(itp, {n: np.ones(d['shape'], dtype=d['dtype']) * 0.25 for n, d in det.items()}))
+            itp = tiu.create_tfl_interpreter(b)           # allocates the tensors
+            if not itp.get_signature_list():               # models without a signature: loading + allocation is what can be compared
+                outs.append({}); continue
+            res = {}
+            for key in itp.get_signature_list():           # every signature
+                det = itp.get_signature_runner(key).get_input_details()
+                for k_, v_ in tiu.invoke_interpreter_signature(itp, {n: (np.ones(d['shape']) * 0.25).astype(d['dtype']) for n, d in det.items()}, key).items(): res[f'{key}/{k_}'] = v_
+            outs.append(res)
         for k in outs[0]:
             if not np.array_equal(outs[0][k], outs[1][k]): bad.append(f'interpreter output {k} differs between the two forms')
     except Exception as e: bad.append(f'interpreter failed on one of the forms: {type(e).__name__}: {str(e)[:120]}')
